@@ -185,10 +185,10 @@ def step (s : State) (ev : Ev) : State × List Out :=
     match c with
     | some _ => (s, [.done a Err.eclosed none true])
     | none =>
-      match mode with
-      | .nb => (s, [.done a Err.eagain none true])          -- F13
-      | .ms 0 => (s, [.done a Err.etimedout none true])
-      | _ =>
+      let (q0, _) := aioPut s.uwq ⟨a, m, deadlineOf s.now mode⟩
+      if (mode == .nb || mode == .ms 0) && q0.putq.any (·.tag == a) then
+        (s, [.done a (if mode == .nb then Err.eagain else Err.etimedout) none true])
+      else
         let (q, es) := aioPut s.uwq ⟨a, m, deadlineOf s.now mode⟩
         applyEvents { s with uwq := q } es uwqEvent
   | .recv c a mode =>
@@ -196,10 +196,10 @@ def step (s : State) (ev : Ev) : State × List Out :=
     match c with
     | some _ => (s, [.done a Err.eclosed none false])
     | none =>
-      match mode with
-      | .nb => (s, [.done a Err.eagain none false])         -- F13
-      | .ms 0 => (s, [.done a Err.etimedout none false])
-      | _ =>
+      let (q0, _) := aioGet s.urq ⟨a, deadlineOf s.now mode⟩
+      if (mode == .nb || mode == .ms 0) && q0.getq.any (·.tag == a) then
+        (s, [.done a (if mode == .nb then Err.eagain else Err.etimedout) none false])
+      else
         let (q, es) := aioGet s.urq ⟨a, deadlineOf s.now mode⟩
         applyEvents { s with urq := q } es urqEvent
   | .cancel a => failAio s a Err.ecanceled
